@@ -87,6 +87,10 @@ class NMAP(Application, discriminator="nmap"):
         if not super()._can_perform_action():
             return False
 
+        if self.software_manager.icmp is None or self.software_manager.arp is None:
+            # a node without an IP stack (a Switch has neither ICMP nor ARP) cannot scan
+            return False
+
         for nic in self.software_manager.node.network_interface.values():
             if nic.enabled:
                 return True
@@ -217,7 +221,8 @@ class NMAP(Application, discriminator="nmap"):
             # Prevent ping scan on this node
             if self.software_manager.node.ip_is_network_interface(ip_address=ip_address):
                 continue
-            can_ping = self.software_manager.icmp.ping(ip_address)
+            icmp = self.software_manager.icmp
+            can_ping = icmp.ping(ip_address) if icmp else False  # no ICMP service on this node: nothing answers
             if can_ping:
                 active_nodes.append(ip_address if not json_serializable else str(ip_address))
             if show and (can_ping or not show_online_only):
